@@ -49,6 +49,9 @@ pub enum Op {
     Abandon(usize),
     Freeze,
     Thaw(u8),
+    /// `MutableState::freeze` and then keep operating on the SAME `MutableState` (which must now be
+    /// equivalent to a thaw of the result); semantics of `Thaw` in model, specification and reference
+    FreezeKeep,
 }
 
 pub fn x(b: &[u8]) -> String { format!("x{}", hex(b)) }
@@ -72,6 +75,7 @@ impl Op {
             Op::Abandon(r) => format!("~ {}", r),
             Op::Freeze => "F".into(),
             Op::Thaw(v) => format!("W {}", v),
+            Op::FreezeKeep => "K".into(),
         }
     }
 
@@ -93,6 +97,7 @@ impl Op {
             "~" => Op::Abandon(t[1].parse().unwrap()),
             "F" => Op::Freeze,
             "W" => Op::Thaw(t.get(1).map(|v| v.parse().unwrap()).unwrap_or(0)),
+            "K" => Op::FreezeKeep,
             _ => panic!("bad op {}", s),
         }
     }
@@ -114,6 +119,7 @@ impl Op {
             Op::Abandon(..) => "abandon",
             Op::Freeze => "freeze",
             Op::Thaw(..) => "thaw",
+            Op::FreezeKeep => "freeze_keep",
         }
     }
 }
@@ -324,7 +330,7 @@ impl Reference {
                 format!("g{}", self.gens.len())
             }
             Op::Freeze => dump_str(&self.cur().dump()),
-            Op::Thaw(_) => {
+            Op::Thaw(_) | Op::FreezeKeep => {
                 let g = self.cur().clone();
                 let d = dump_str(&g.dump());
                 self.gens = vec![RGen { map: g.map, ents: g.ents, handles: vec![], iters: vec![] }];
@@ -580,6 +586,28 @@ impl Machine {
                 let ps = self.freeze_copy();
                 let d = persistent_dump(&ps, &self.store);
                 self.frozen.push((ps, d.clone()));
+                d
+            }
+            Op::FreezeKeep => {
+                if let Backend::Trie(_) = self.backend {
+                    return self.step(&Op::Thaw(0));
+                }
+                let Machine { backend, store, tabs, frozen } = self;
+                let mut loader = Loader::new(&store[..]);
+                let d = match backend {
+                    Backend::Api(states) => {
+                        let mut st = states.pop().unwrap();
+                        let ps = st.freeze(&mut loader, &mut EmptyCollector);
+                        let d = persistent_dump(&ps, store);
+                        frozen.push((ps, d.clone()));
+                        // keep using the very same MutableState (older states share the emptied trie and are gone)
+                        let _ = st.get_inner(&mut loader);
+                        *states = vec![st];
+                        d
+                    }
+                    Backend::Trie(_) => unreachable!(),
+                };
+                *tabs = vec![Tables::default()];
                 d
             }
             Op::Thaw(variant) => {
@@ -915,7 +943,7 @@ fn gen_history(rng: &mut Rng, profile: &str, maxlen: u64) -> Vec<Op> {
                 if rng.chance(2, 5) { Op::Abandon(target) } else { Op::Normalize(target) }
             }
             12 => Op::Freeze,
-            _ => Op::Thaw(rng.below(6) as u8),
+            _ => if rng.chance(1, 3) { Op::FreezeKeep } else { Op::Thaw(rng.below(6) as u8) },
         };
         let abandoned = matches!(op, Op::Abandon(_));
         r.step(&op);
